@@ -136,7 +136,11 @@ class KindEngine:
             return None
         if len(kr) == 1:
             return tuple(kl[:-1])
-        return tuple(kl[:-1]) + tuple(kr[1:]) if len(kr) == 2 else tuple(kl[:-1]) + tuple(kr[-1:])
+        if len(kr) == 2:
+            return tuple(kl[:-1]) + tuple(kr[1:])
+        # numpy matmul with a stack on the right: batch axes lead, then the row axis of the left operand
+        batch = tuple(kr[:-2]) if len(kl) <= 2 else tuple(kl[:-2])
+        return batch + tuple(kl[-2:-1]) + tuple(kr[-1:])
 
     @staticmethod
     def _compat(a: str, b: str) -> bool:
@@ -195,6 +199,8 @@ class KindEngine:
                 return self._reshape(t, self.k(recv), pos)
         if fn == "einsum" and pos and pos[0].op == "const" and isinstance(pos[0].args[0], str):
             return self._einsum(t, pos[0].args[0], pos[1:])
+        if fn in ("matmul", "dot") and len(pos) == 2:
+            return self._matmul(t, self.k(pos[0]), self.k(pos[1]))
         if fn in ("zeros_like",) and pos:
             return self.k(pos[0])
         if fn == "block" and pos and pos[0].op == "list":
